@@ -192,6 +192,102 @@ def run_case(f, target, tkind, ekind, source, how, mmk=None, uc=None):
     return got == exp, obs
 
 
+ABS_GRAMMAR = """
+Model: vals+=Val;
+Val: Obj | STRING | INT;
+Obj: 'obj' name=ID;
+"""
+ABS_TOKENS = ["obj a", "'x'", "3", "obj b", "'y'"]
+
+
+def abs_cases(n):
+    import itertools
+
+    for k in range(1, n + 1):
+        for seq in itertools.product(range(len(ABS_TOKENS)), repeat=k):
+            if len(set(seq)) == len(seq):
+                for t in range(k):
+                    yield seq, t
+
+
+def run_abs(seq, t, ekind, source, how):
+    """a processor registered for an ABSTRACT rule whose alternatives include base types: it is called for objects and for plain values"""
+    from textx import metamodel_from_str, textxerror_wrap
+    from textx.exceptions import TextXError, TextXSemanticError
+
+    if "abs" not in _S:
+        _S["abs"] = metamodel_from_str(ABS_GRAMMAR)
+    m_ = _S["abs"]
+    toks = [ABS_TOKENS[i] for i in seq]
+    parts = []
+    for tk in toks:
+        parts += tk.split(" ")
+    text = layout(parts, how)
+    starts = []
+    pos = 0
+    for tk in toks:
+        first = tk.split(" ")[0]
+        pos = text.index(first, pos)
+        starts.append(pos)
+        pos += len(first)
+    line, col = linecol(text, starts[t])
+    target = toks[t]
+
+    def is_target(v):
+        if target.startswith("obj"):
+            return getattr(v, "name", None) == target[4:]
+        return v == (int(target) if target.isdigit() else target.strip("'"))
+
+    def proc(v):
+        if is_target(v):
+            if ekind == "textx-no-location":
+                raise TextXError("boom")
+            if ekind == "semantic-no-location":
+                raise TextXSemanticError("boom")
+            raise ValueError("boom")
+    m_.register_obj_processors({"Val": textxerror_wrap(proc) if ekind == "wrapped-valueerror" else proc})
+    fn = None
+    if source == "file":
+        fn = os.path.join(core.rundir(), "c33a-%d.m" % os.getpid())
+        with open(fn, "w") as fh:
+            fh.write(text)
+    obs = {"grammar": "Val: Obj | STRING | INT", "text": text, "target": target, "error_kind": ekind, "source": source, "layout": how}
+    try:
+        m_.model_from_file(fn) if fn else m_.model_from_str(text)
+        obs["observed"] = "no error"
+        return False, obs
+    except TextXError as e:
+        got = {"line": e.line, "col": e.col, "filename": e.filename}
+    except Exception as e:
+        obs["observed"] = "%s: %s" % (type(e).__name__, e)
+        return False, obs
+    exp = {"line": line, "col": col, "filename": fn}
+    obs["expected"] = dict(exp, filename=os.path.basename(fn) if fn else None)
+    obs["observed"] = dict(got, filename=os.path.basename(got["filename"]) if got["filename"] else None)
+    obs["primitive"] = not target.startswith("obj")
+    return got == exp, obs
+
+
+def work_abs(arg):
+    u = Unit()
+    for seq, t in arg:
+        for ekind in ("textx-no-location", "semantic-no-location", "wrapped-valueerror"):
+            for source in ("str", "file"):
+                for how in ("plain", "mixed"):
+                    cid = ["abs", list(seq), t, ekind, source, how]
+                    with watchdog(20):
+                        ok, obs = run_abs(seq, t, ekind, source, how)
+                    u.case(cid, nontrivial=True, sample=obs if how == "mixed" and source == "file" and len(seq) == 3 else None)
+                    u.count("abstract-rule-processor/" + ("value" if obs.get("primitive") else "object"))
+                    if not ok:
+                        key = None
+                        if obs.get("primitive") and obs.get("observed") == {"line": None, "col": None, "filename": None}:
+                            key = "abstract_rule_primitive_value_has_no_location"
+                        u.fail(cid, {"abs": list(seq), "t": t, "ekind": ekind, "source": source, "layout": how}, sig="abs %s %s" % (ekind, obs.get("primitive")),
+                               what=str(obs)[:500], key=key)
+    return u
+
+
 def work(arg):
     fs = arg
     u = Unit()
@@ -229,6 +325,8 @@ def run(ctx):
     N = 3 if ctx.tier == "quick" else 4
     fs = [f for n in range(1, N + 1) for f in trees.forests(n)]
     ctx.pmap(work, [fs[i:i + 3] for i in range(0, len(fs), 3)])
+    ac = list(abs_cases(3 if ctx.tier == "quick" else 4))
+    ctx.pmap(work_abs, [ac[i:i + 12] for i in range(0, len(ac), 12)])
     return {
         "rule": "case = (forest up to %d objects, failing target = each object / each value, error kind of %s, string|file, layout of %s); every case "
                 "is a distinct failing load" % (N, KINDS, LAYOUTS),
@@ -237,4 +335,6 @@ def run(ctx):
 
 
 def replay(p):
+    if "abs" in p:
+        return run_abs(tuple(p["abs"]), p["t"], p["ekind"], p["source"], p["layout"])
     return run_case(tup(p["forest"]), tup(p["target"]), p["tkind"], p["ekind"], p["source"], p["layout"], p.get("mm"), p.get("uc"))
